@@ -59,10 +59,11 @@ META = {
         tech="static analysis: must-pass guards + status hygiene (error branch cannot return OK)",
         ref="DESIGN.md §4 C08"),
     "C09": dict(
-        text="static: 16-bit length stores are dominated by an exiting range check; reader dereferences are behind length "
-             "checks; exact-tiling error exits exist; header form table",
-        note="decides boundedness and guard clauses; round-trip equality is not decided",
-        tech="static analysis: bounded-access (dominating range checks) + error-on-condition + decision table of the header form",
+        text="static: serializers evaluated over abstract output buffers for the boundary classes of length / tag / flags / buffer "
+             "size (no write outside the buffer, short buffer refused, exact header bytes, >0xffff refused); detach re-mapping; "
+             "reader dereferences behind length checks; exact-tiling error exits",
+        note="decides the boundary classes named in the evidence; payload bytes are opaque, round-trip of arbitrary trees is not decided",
+        tech="static analysis: finite abstract evaluation of the CFG over abstract byte buffers + dominating range checks + error-on-condition",
         ref="DESIGN.md §4 C09"),
     "C10": dict(
         text="static: the TLV template tables equal the reviewed schema (tags, kinds, multiplicity, constraint flags); every "
@@ -89,20 +90,21 @@ META = {
         tech="static analysis: must-pass guards + paired-effect (control equivalence) + decision tables",
         ref="DESIGN.md §4 C13"),
     "C14": dict(
-        text="static: recv/memmove bounded by the buffer, stream offsets reset with the socket, would-block edges fail nothing, "
-             "faults end requests",
+        text="static: recv/memmove bounded by the buffer, received bytes reach the extraction loop before the next read/close, blocking "
+             "reader table over chunk sequences, stream offsets reset with the socket, would-block edges fail nothing, faults end requests",
         note="decides buffer/offset clauses; independence from chunking as an input-output statement is not decided",
         tech="static analysis: bounded-access + paired effects + stale-status rule",
         ref="DESIGN.md §4 C14"),
     "C15": dict(
         text="static: each consolidation predicate's discard condition equals 'absent, zero or outside the documented range'; "
-             "update direction max/min per field (commutative, associative, idempotent fold)",
-        note="decides the configuration consolidation completely for the comparison logic; fan-out schedules are not decided",
+             "update direction max/min per field; fan-out counts one expected response per accepting endpoint; decision tables of "
+             "the valid-response / error-response handlers (first response wins, error only when nobody is left); recycled request reset",
+        note="decides consolidation and the per-event handler tables; interleavings of events across endpoints are not enumerated",
         tech="static analysis: finite abstract evaluation over order regions of the compared constants",
         ref="DESIGN.md §4 C15"),
     "C16": dict(
-        text="static: level refusal guards, ownership on error paths of the tree builder, constructor/reset agreement of the "
-             "block signer including leaf-processor order",
+        text="static: level refusal guards, height prediction fold table, insertNode table (forest unchanged on failure), ownership on "
+             "error paths of the tree builder, constructor/reset agreement of the block signer including leaf-processor order",
         note="decides refusal and agreement clauses; validity of every extracted proof is not decided",
         tech="static analysis: error-on-condition + sibling agreement (constructor vs reset) + call-sequence",
         ref="DESIGN.md §4 C16"),
